@@ -1,32 +1,34 @@
 #!/usr/bin/env python3
-"""Generates the markdown table of section 7 of DESIGN.md: for every seeded change, the first
-rule of the property's own check that reports it, and the other properties whose checks also fire
-(from a cross-matrix file produced by `ALLPROPS=1 tools/seedtest.py <seed>`)."""
-import json, os, re, subprocess, sys, tempfile
-matrix = {}
-if len(sys.argv) > 1 and os.path.exists(sys.argv[1]):
-    for l in open(sys.argv[1]):
+"""seedtable.py <cross-matrix log> <own-property log> - generates the markdown table of section 7 of
+DESIGN.md: for every seeded change, the first rule of the property's own check that reports it (from
+the output of `tools/seedtest.py`, which prints the first VIOLATED/UNDECIDED lines under each seed) and
+the other properties whose checks also fire (from the output of `ALLPROPS=1 tools/seedtest.py`)."""
+import json, os, re, sys
+def parse(path):
+    res, cur = {}, None
+    for l in open(path):
         m = re.match(r'(\S+) \[(\S+)\] (CAUGHT by (\S+)|MISSED)', l)
-        if m: matrix[m.group(1)] = (m.group(4) or '').split(',') if m.group(4) else []
-rows = []
-for s in sorted(os.listdir('/verif/seeded')):
-    meta = json.load(open(f'/verif/seeded/{s}/meta.json'))
-    prop = meta['property']
-    notes = open(f'/verif/seeded/{s}/notes.md').read() if os.path.exists(f'/verif/seeded/{s}/notes.md') else ''
-    patch = open(f'/verif/seeded/{s}/patch.diff').read()
-    files = sorted(set(re.findall(r'^\+\+\+ b/(\S+)', patch, re.M)))
-    wt = tempfile.mkdtemp(prefix='seedtab-', dir='/tmp'); os.rmdir(wt)
-    subprocess.run(f'git -C /repo worktree add -q --detach {wt} HEAD', shell=True, check=True)
-    try:
-        subprocess.run(f'git apply /verif/seeded/{s}/patch.diff', shell=True, cwd=wt, check=True)
-        r = subprocess.run(f'/verif/bin/gicheck -property {prop} -repo {wt} -verif /tmp/seedtest-verif', shell=True, capture_output=True, text=True)
-        keys = re.findall(r'^(?:VIOLATED|UNDECIDED): \S+ \[([^\]]+)\]', r.stdout, re.M)
-    finally:
-        subprocess.run(f'git -C /repo worktree remove --force {wt}', shell=True)
-    first = keys[0] if keys else '— (missed)'
-    others = [p for p in matrix.get(s, []) if p != prop]
-    rows.append((s, ', '.join(files), first, ', '.join(others)))
+        if m:
+            cur = m.group(1)
+            res[cur] = {'props': (m.group(4) or '').split(',') if m.group(4) else [], 'keys': []}
+            continue
+        k = re.match(r'\s+(?:VIOLATED|UNDECIDED): \S+ \[([^\]]+)\]', l)
+        if k and cur:
+            res[cur]['keys'].append(k.group(1))
+    return res
+matrix = parse(sys.argv[1]) if len(sys.argv) > 1 and os.path.exists(sys.argv[1]) else {}
+own = parse(sys.argv[2]) if len(sys.argv) > 2 and os.path.exists(sys.argv[2]) else {}
 print('| seed | file changed | first rule reporting (own property) | also reported by |')
 print('|---|---|---|---|')
-for r in rows:
-    print('| %s | %s | `%s` | %s |' % r)
+def order(s):
+    m = re.match(r'(C\d+)-(?:r(\d))?m(\d)', s)
+    return (m.group(1), int(m.group(2) or 1), int(m.group(3)))
+for s in sorted(os.listdir('/verif/seeded'), key=order):
+    meta = json.load(open(f'/verif/seeded/{s}/meta.json'))
+    prop = meta['property']
+    patch = open(f'/verif/seeded/{s}/patch.diff').read()
+    files = sorted(set(re.findall(r'^\+\+\+ b/(\S+)', patch, re.M)))
+    keys = [k for k in own.get(s, {}).get('keys', []) if k.startswith(prop + '.')]
+    first = keys[0] if keys else '- (not by its own property)'
+    others = [p for p in matrix.get(s, {}).get('props', []) if p != prop]
+    print('| %s | %s | `%s` | %s |' % (s, ', '.join(files), first, ', '.join(others)))
